@@ -76,17 +76,32 @@ pub struct ChunkWriter {
     pub si: usize,
     pub fail_at: Option<usize>,
     pub fail_kind: io::ErrorKind,
+    pub one_shot: bool,          // the failure at `fail_at` happens exactly once; later calls are served again
+    pub fired: bool,
+    pub cap: Option<usize>,      // all-or-nothing bounded sink: a buffer that does not fit entirely is refused (fail_kind), smaller ones still fit
+    pub calls_after_failure: usize,
 }
 
 impl ChunkWriter {
     pub fn new(chunk: usize) -> Self {
-        ChunkWriter { accepted: vec![], buffers: vec![], chunk, sched: vec![], si: 0, fail_at: None, fail_kind: io::ErrorKind::Other }
+        ChunkWriter { accepted: vec![], buffers: vec![], chunk, sched: vec![], si: 0, fail_at: None, fail_kind: io::ErrorKind::Other, one_shot: false, fired: false, cap: None, calls_after_failure: 0 }
     }
 }
 
 impl Write for ChunkWriter {
     fn write(&mut self, buf: &[u8]) -> io::Result<usize> {
         self.buffers.push(buf.to_vec());
+        if self.fired {
+            self.calls_after_failure += 1;
+        }
+        if let Some(c) = self.cap {
+            if self.accepted.len() + buf.len() > c {
+                self.fired = true;
+                return Err(io::Error::new(self.fail_kind, "sink full"));
+            }
+            self.accepted.extend_from_slice(buf);
+            return Ok(buf.len());
+        }
         let mut want = if self.sched.is_empty() {
             if self.chunk == 0 { buf.len() } else { self.chunk }
         } else {
@@ -98,10 +113,13 @@ impl Write for ChunkWriter {
             w
         };
         if let Some(k) = self.fail_at {
-            if self.accepted.len() >= k {
-                return Err(io::Error::new(self.fail_kind, "injected"));
+            if !(self.one_shot && self.fired) {
+                if self.accepted.len() >= k {
+                    self.fired = true;
+                    return Err(io::Error::new(self.fail_kind, "injected"));
+                }
+                want = want.min(k - self.accepted.len());
             }
-            want = want.min(k - self.accepted.len());
         }
         let n = want.min(buf.len());
         self.accepted.extend_from_slice(&buf[..n]);
